@@ -57,9 +57,23 @@ def handle (s : S) (i : Nat) (j : Json) : S × List Json :=
         ("asCodedGuardHeld", allowedAny), ("othersChanged", mkInt others), ("shortWithoutStopLoss", v.module == .perp && !v.long && sl == 0)]
       -- model prediction: not allowed ⇒ untouched (theorem untouched_otherwise); the implementation must agree
       let diffs := if changed && !allowedAny then [verdictDiff i "position altered although no attempted guard held" (Json.str "untouched") detail] else []
+      -- a perpetual position that stays: requests (however many, from whomever) may take the interest and funding accrued up to
+      -- this block out of its custody ONCE; a position nobody named keeps its custody to the unit
+      let sizeAfter := (fInt? after "size").getD 0
+      let sizeBefore := (fInt? before "size").getD 0
+      let overTaken : Option Int :=
+        if v.module != .perp || changed || others > 0 then none
+        else if requested.isEmpty then (if sizeAfter != sizeBefore then some (sizeBefore - sizeAfter) else none)
+        else match fInt? j "settledSize" with
+          | some st => if sizeAfter < st then some (st - sizeAfter) else none
+          | none => none
       let viols :=
         (if changed && !specAny then [verdictViol i "C10.third_party_close" detail] else []) ++
-        (if !changed && !allowedAny && ownerMoved then [verdictViol i "C10.untouched_otherwise" detail] else [])
+        (if !changed && !allowedAny && ownerMoved then [verdictViol i "C10.untouched_otherwise" detail] else []) ++
+        (match overTaken with
+         | some x => [verdictViol i "C10.only_accrued_taken" (Json.mkObj [("pos", fld j "pos"), ("requested", fld j "requested"), ("repeated", fld j "repeated"),
+                        ("custodyBefore", mkInt sizeBefore), ("custodyAfterOneSettlement", fld j "settledSize"), ("custodyAfter", mkInt sizeAfter), ("takenBeyondAccrued", mkInt x)])]
+         | none => [])
       let vs := diffs ++ viols
       (s, if vs.isEmpty then [verdictOk i] else vs)
     | _, _, _, _, _ => (s, [verdictBad i "c10.case fields"])
